@@ -102,6 +102,10 @@ class Writer:
     def close(self, depth, name):
         self.line(depth, '</%s>' % name)
 
+    def space_pairs(self, elem):
+        # WN-LMF 1.3 allows xml:space on nodes with text content
+        return [('xml:space', elem.get('space') if self.v == '1.3' else None)]
+
     def textelem(self, depth, name, pairs, text):
         self.line(depth, '<%s%s>%s</%s>' % (name, self.attrs(pairs), self.etext(text), name))
 
@@ -210,8 +214,8 @@ class Writer:
 
     def example(self, depth, ex):
         self.textelem(depth, 'Example',
-                      [('language', ex.get('language'))] + self.meta_pairs(ex.get('meta')),
-                      ex['text'])
+                      [('language', ex.get('language'))] + self.space_pairs(ex)
+                      + self.meta_pairs(ex.get('meta')), ex['text'])
 
     def relation(self, depth, name, r):
         self.empty(depth, name, [('relType', r['relType']), ('target', r['target'])]
@@ -266,11 +270,12 @@ class Writer:
         for d in ss.get('definitions', []):
             self.textelem(3, 'Definition',
                           [('language', d.get('language')),
-                           ('sourceSense', d.get('sourceSense'))]
+                           ('sourceSense', d.get('sourceSense'))] + self.space_pairs(d)
                           + self.meta_pairs(d.get('meta')), d['text'])
         if ss.get('ili_definition') and not ext:
             idf = ss['ili_definition']
-            self.textelem(3, 'ILIDefinition', self.meta_pairs(idf.get('meta')), idf['text'])
+            self.textelem(3, 'ILIDefinition', self.space_pairs(idf)
+                          + self.meta_pairs(idf.get('meta')), idf['text'])
         for r in ss.get('relations', []):
             self.relation(3, 'SynsetRelation', r)
         for ex in ss.get('examples', []):
